@@ -591,7 +591,7 @@ class TypGen:
     def block(self, depth, names, in_fn, n=None):
         rng = self.rng
         out = []
-        calls = not in_fn                 # calls to user functions from inside function bodies are not modelled
+        calls = True                      # incl. calls from inside function bodies: earlier / later helpers, itself (recursion)
         for _ in range(n if n is not None else rng.choice([1, 2, 2, 3])):
             r = rng.random()
             if depth > 0 and r < 0.22:
@@ -694,6 +694,17 @@ FIXED_PROGRAMS = [
     [("def", "f", ["count", "limit"], [("if", [("count < 0", [("return", "False")])], None), ("if", [("count >= limit", [("return", "True")])], None),
                                        ("return", "count + 1")]),
      ("stmt", ("assign", "a", "f(3, 10)")), ("stmt", ("assign", "x", "2.5")), ("stmt", ("assign", "b", "f(x, 10)")), ("stmt", ("assign", "c", "f(True, 1)"))],
+    # helpers calling helpers: an earlier helper under a new signature (variant parsed on demand inside the caller's body),
+    # a later helper (no source yet), itself (recursion: _refreshing_functions), a chain of three
+    [("def", "f", ["p"], [("return", "p")]), ("def", "g", ["p"], [("return", "f(p) + f(p)")]),
+     ("stmt", ("assign", "x", "2.5")), ("stmt", ("assign", "a", "g(x)")), ("stmt", ("assign", "b", "g(3)"))],
+    [("def", "g", ["p"], [("assign", "z", "f(p)"), ("return", "z")]), ("def", "f", ["p"], [("return", "p * 0.5")]),
+     ("stmt", ("assign", "a", "g(1)")), ("stmt", ("assign", "b", "g(2.5)"))],
+    [("def", "f", ["p"], [("if", [("p > 0", [("return", "f(p - 1)")])], None), ("return", "p * 0.5")]),
+     ("stmt", ("assign", "a", "f(3)")), ("stmt", ("assign", "b", "f(2.5)"))],
+    [("def", "f", ["p"], [("return", "p")]), ("def", "g", ["p", "q"], [("assign", "w", "f(q)"), ("return", "w + f(p)")]),
+     ("def", "h", ["p"], [("for", "i", "2", [("assign", "z", "g(p, i)")]), ("return", "g(p, 0.5)")]),
+     ("stmt", ("assign", "s", "'x'")), ("stmt", ("assign", "a", "h(1)")), ("stmt", ("assign", "b", "h(2.5)")), ("stmt", ("assign", "c", "f(s)"))],
     # tuple assignments: all-new names at column 0 (globals, no temporaries), a swap, mixed new/old, inside a block,
     # in a def, in the main loop, one name twice
     [("stmt", ("tassign", ["a", "b", "s"], ["1", "2.5", "'x'"])), ("stmt", ("tassign", ["a", "b"], ["b", "a"])),
